@@ -20,6 +20,8 @@ CHECKS = {
  "C16": (True, "Bounded model checking of the string filters through the real call layer with strings of symbolic bytes (any byte values; valid UTF-8 assumed where the statement requires it) and integer arguments over all 64-bit values: append/prepend, upcase/downcase/capitalize, strip family, size, slice, replace/remove family, split/join round trip, newline filters, url_encode/url_decode round trip, non-string receivers; truncate/truncatewords/escape on a forked text and length set (regexp/html are native, concrete only).", "DESIGN.md §4 C16"),
  "C17": (True, "Bounded model checking of the numeric filters with operands as SMT floating-point variables (all finite float64) and integers of every width: plus/minus/times against the IEEE operation, divided_by dispatch over every divisor kind incl. zero, ceil/floor bracketing and integrality, round half up, abs; modulo and string operands on a forked operand set.", "DESIGN.md §4 C17"),
  "C18": (True, "Bounded model checking of representation independence: each logical value (integer, float, string, array, map; payloads are solver variables) is rendered in the canonical Go representation and in another one (every integer width, float32, typed slice, fixed array, typed map, ordered YAML map, []byte, pointer, Drop at the top or nested) through a corpus of templates covering printing, comparison, arithmetic, indexing, loops and modifiers, filters and case; outputs and error-ness must agree.", "DESIGN.md §4 C18"),
+ "C14": (True, "Bounded model checking of include over a stubbed file system: for each includer location, argument form (literal, variable, filtered expression, sub-directory, parent directory) and file state (on disk, cache only, both with different content, missing, unreadable) the output is compared with rendering the chosen content directly with the includer's current variables (payloads are solver variables); non-string arguments and failing included templates must fail; nested includes resolve relative to the parsed path. Natively replayed on real files in a scratch directory.", "DESIGN.md §4 C14"),
+ "C20": (True, "Bounded model checking over fault schedules: the index k of the failing Write and the number of bytes it accepts are solver variables (every k up to the number of writes of the fault-free render, computed on the same path), for a template corpus covering every tag; FRender/ParseAndFRender must return a non-nil error without panicking, the accepted bytes must be a prefix of the fault-free output, and no Write may follow the failing one.", "DESIGN.md §4 C20"),
  "C09": (True, "Bounded model checking of values.Equal/Less/Contains and the grammar's operator actions: every ordered pair of scalar kinds is forked, payloads (all integers of each width, finite floats, short strings, small arrays) are solver variables, and the documented comparison rules are asserted as a reference written from the statement.", "DESIGN.md §4 C09"),
 }
 ALL = ["C%02d" % i for i in range(1, 21)]
